@@ -372,3 +372,37 @@ def c16e(ctx):
         ok = ok and bool(uses_all)
         ctx.check(ok, '%s.load_tiles:none-skipped' % cname, 'inside the bulk loop the coordinate is only used for tiles whose coordinate is not None', f,
                   fail='%s.load_tiles uses the coordinate of tiles that lie outside the grid (coord None): TypeError / wrong address in a bulk load' % cname)
+
+
+@rule('C16.f', floor=4)
+def c16f(ctx):
+    """every tile list is limited by the grid size of its level: _create_tile_list(xs, ys, level, <limit>) receives
+    grid_sizes[level] (named exemption: _full_tile_list builds the bounding box of tiles that are already in the grid)"""
+    n = 0
+    for q, f in sorted(ctx.repo.funcs.items()):
+        if not q.startswith(GRID + ':'):
+            continue
+        defs = Defs(f.node)
+        for x in f.walk():
+            if not is_call(x, '_create_tile_list'):
+                continue
+            n += 1
+            lim = x.args[3] if len(x.args) > 3 else None
+            lvl = unparse(x.args[2]) if len(x.args) > 2 else '?'
+            if f.short == 'MetaGrid._full_tile_list':
+                ctx.ok('%s:tile-list-limit' % f.short, 'exempt: bounding box of in-grid tiles (its callers pass tiles that exist in the grid)', f, x)
+                continue
+            ok = lim is not None and unparse(lim).replace('self.grid.', 'self.') == 'self.grid_sizes[%s]' % lvl
+            ctx.check(ok, '%s:tile-list-limit' % f.short, 'the tile list is limited by grid_sizes[%s]' % lvl, f, x,
+                      fail='%s builds its tile list with limit %s instead of the grid size of level %s: addresses outside the grid are not None' % (
+                          f.short, unparse(lim) if lim is not None else '?', lvl))
+    # users of the exempt helper
+    callers = []
+    for q, f in sorted(ctx.repo.funcs.items()):
+        if q.startswith(GRID + ':') and f.short != 'MetaGrid._full_tile_list':
+            callers += [(f, x) for x in f.walk() if is_call(x, 'self._full_tile_list')]
+    ok = all(f.short == 'MetaGrid.minimal_meta_tile' for f, x in callers) and bool(callers)
+    ctx.check(ok, 'MetaGrid._full_tile_list:only-for-minimal-meta-tile', 'the bbox-limited list is only used for the request-minimising meta tile (built from tiles that were requested and are in the grid)',
+              (GRID, 0), fail='_full_tile_list (limited by its own bounding box, not by the grid) is used by %s: tiles hanging over the grid edge are fetched and stored' % sorted({f.short for f, x in callers}))
+    if n < 4:
+        raise Undecided('only %d _create_tile_list call sites' % n)
